@@ -32,6 +32,7 @@ type profile struct {
 	globs   []string
 	imports map[string]string // real import path -> shim import path
 	goStmt  bool              // rewrite `go f(x)` into vsched.Go(func(){ f(x) })
+	mapOrd  bool              // rewrite `range <map>` into an explorer-ordered loop (vmap.Keys)
 }
 
 var shims = map[string]string{
@@ -57,6 +58,7 @@ var profiles = []profile{
 		imports: pick("os", "sync", "time")},
 	{globs: []string{"s3event/*.go"},
 		imports: pick("sync", "time"), goStmt: true},
+	{globs: []string{"auth/bucket_policy*.go"}, imports: map[string]string{}, mapOrd: true},
 }
 
 type constSet []string
@@ -151,6 +153,11 @@ func main() {
 				})
 				if p.goStmt {
 					if rewriteGo(af) {
+						changed = true
+					}
+				}
+				if p.mapOrd {
+					if rewriteMapRanges(fset, f, af) {
 						changed = true
 					}
 				}
@@ -354,4 +361,105 @@ func genForwarders(path, shimName string, ids []string) []byte {
 		die("generated forwarders do not parse: %v\n%s", err, hdr.Bytes())
 	}
 	return src
+}
+
+// ---- map iteration order -------------------------------------------------
+
+type emptyImporter struct{}
+
+func (emptyImporter) Import(path string) (*types.Package, error) {
+	p := types.NewPackage(path, filepath.Base(path))
+	p.MarkComplete()
+	return p, nil
+}
+
+var pkgInfoCache = map[string]*types.Info{}
+var pkgFilesCache = map[string]map[string]*ast.File{}
+
+// typeInfo type-checks the package directory of file with imports stubbed
+// out (errors ignored): types declared in the package itself — all the
+// policy maps are — resolve, everything else stays unknown and is left alone.
+func typeInfo(fset *token.FileSet, file string, self *ast.File) *types.Info {
+	dir := filepath.Dir(file)
+	if info, ok := pkgInfoCache[dir]; ok {
+		return info
+	}
+	names, _ := filepath.Glob(filepath.Join(dir, "*.go"))
+	var files []*ast.File
+	byName := map[string]*ast.File{}
+	for _, n := range names {
+		if strings.HasSuffix(n, "_test.go") {
+			continue
+		}
+		af, err := parser.ParseFile(fset, n, nil, parser.ParseComments)
+		if err != nil {
+			die("parse %s: %v", n, err)
+		}
+		files = append(files, af)
+		byName[n] = af
+	}
+	info := &types.Info{Types: map[ast.Expr]types.TypeAndValue{}}
+	conf := types.Config{Importer: emptyImporter{}, Error: func(error) {}, DisableUnusedImportCheck: true}
+	conf.Check(dir, fset, files, info)
+	pkgInfoCache[dir] = info
+	pkgFilesCache[dir] = byName
+	return info
+}
+
+func rewriteMapRanges(fset *token.FileSet, file string, af *ast.File) bool {
+	info := typeInfo(fset, file, af)
+	// the type info belongs to the ASTs parsed by typeInfo: work on that copy of this file
+	src := pkgFilesCache[filepath.Dir(file)][file]
+	if src == nil {
+		return false
+	}
+	changed := false
+	var visit func(n ast.Node) bool
+	visit = func(n ast.Node) bool {
+		bs, ok := n.(*ast.BlockStmt)
+		if !ok {
+			return true
+		}
+		for i, st := range bs.List {
+			rs, ok := st.(*ast.RangeStmt)
+			if !ok {
+				continue
+			}
+			tv, ok := info.Types[rs.X]
+			if !ok || tv.Type == nil {
+				continue
+			}
+			if _, isMap := tv.Type.Underlying().(*types.Map); !isMap {
+				continue
+			}
+			m := ast.NewIdent(fmt.Sprintf("_verif_m%d", i))
+			key := rs.Key
+			if key == nil {
+				key = ast.NewIdent("_")
+			}
+			body := rs.Body
+			if rs.Value != nil {
+				if id, ok := rs.Value.(*ast.Ident); !ok || id.Name != "_" {
+					tok := rs.Tok
+					assign := &ast.AssignStmt{Lhs: []ast.Expr{rs.Value}, Tok: tok, Rhs: []ast.Expr{&ast.IndexExpr{X: m, Index: key}}}
+					body = &ast.BlockStmt{List: append([]ast.Stmt{assign}, rs.Body.List...)}
+				}
+			}
+			loop := &ast.RangeStmt{Key: ast.NewIdent("_"), Value: key, Tok: rs.Tok, X: &ast.CallExpr{Fun: &ast.SelectorExpr{X: ast.NewIdent("verifvmap"), Sel: ast.NewIdent("Keys")}, Args: []ast.Expr{m}}, Body: body}
+			if rs.Key == nil {
+				loop.Value = nil
+				loop.Key = nil
+				loop.Tok = token.ILLEGAL
+			}
+			bs.List[i] = &ast.BlockStmt{List: []ast.Stmt{&ast.AssignStmt{Lhs: []ast.Expr{m}, Tok: token.DEFINE, Rhs: []ast.Expr{rs.X}}, loop}}
+			changed = true
+		}
+		return true
+	}
+	ast.Inspect(src, visit)
+	if changed {
+		src.Decls = append([]ast.Decl{&ast.GenDecl{Tok: token.IMPORT, Specs: []ast.Spec{&ast.ImportSpec{Name: ast.NewIdent("verifvmap"), Path: &ast.BasicLit{Kind: token.STRING, Value: strconv.Quote("verif/shim/vmap")}}}}}, src.Decls...)
+		*af = *src
+	}
+	return changed
 }
